@@ -164,13 +164,15 @@ Example C12_ex_hypotheses :
   layer_sane m_init c12_f /\ layer_sane c12_old c12_f /\
   at_most_one_fault (fault_single 3 (FltShort 2)) /\ at_most_one_fault fault_none.
 Proof.
-  split; [reflexivity|]. split; [discriminate|].
-  split. { exists 2%nat. eexists. split; [reflexivity|]. split; [reflexivity|]. split; reflexivity. }
-  split. { right. split; reflexivity. }
+  split; [vm_compute; reflexivity|]. split; [discriminate|].
+  split. { exists 2%nat. eexists. split; [vm_compute; reflexivity|]. split; [vm_compute; reflexivity|].
+           split; vm_compute; reflexivity. }
+  split. { right. split; vm_compute; reflexivity. }
   split. { left. split.
-           - exists 1%nat. eexists. split; [reflexivity|]. split; [reflexivity|]. split; reflexivity.
-           - right. exists [9;9]%N, 2%nat. eexists. split; [reflexivity|]. split; [reflexivity|].
-             split; [reflexivity|]. split; reflexivity. }
+           - exists 1%nat. eexists. split; [vm_compute; reflexivity|]. split; [vm_compute; reflexivity|].
+             split; vm_compute; reflexivity.
+           - right. exists [9;9]%N, 2%nat. eexists. split; [vm_compute; reflexivity|].
+             split; [vm_compute; reflexivity|]. split; [vm_compute; reflexivity|]. split; vm_compute; reflexivity. }
   split; [apply amo_single | apply amo_none].
 Qed.
 
@@ -200,3 +202,14 @@ Proof. vm_compute. reflexivity. Qed.
 Example C12_ex_early_eof_on_base :                   (* Open Stat Read(3 bytes, EOF) Stat: 3 <> 5 -> EIO *)
   c12_run_base c12_old (fault_single 2 (FltShort 3)) = (None, 5%nat, Some (E KEIO)).
 Proof. vm_compute. reflexivity. Qed.
+
+(* The hypothesis "name in normal form" cannot be dropped while copyFile computes the parent
+   directory from the spelling it is given (Gen/Consts.v copyfile_cleans_name = 0, regenerated from
+   unionFile.go on every run): for "/d/f/" the parent is "/d/f", MkdirAll creates a DIRECTORY of
+   that name, and a refused Create leaves it there — neither absent, nor old, nor a copy. *)
+Definition c12_f_slash : str := [47;100;47;102;47]%N.            (* "/d/f/" *)
+Example C12_ex_trailing_separator_witness : copyfile_cleans_name = 0 ->
+  let '(sb', (sl', n), r) :=
+    copy_to_layer m_step (faulty_step m_step (fault_single 2 (FltFail (E KEIO)))) c12_base (m_init, 0%nat) c12_f_slash in
+  option_map ndir (fs_entry sl' c12_f) = Some true /\ r = Some (E KEIO).
+Proof. intros H. first [ (vm_compute in H; discriminate H) | (vm_compute; split; reflexivity) ]. Qed.
